@@ -11,7 +11,7 @@
 (***************************************************************************)
 EXTENDS Handshake, Json
 
-CONSTANTS Family,     \* "mj_basic" "mj_restricted" "mj_qerr" "ml" "sj_shape" "sj_trust" "inv" "inv3" "e2e", or
+CONSTANTS Family,     \* "mj_basic" "mj_restricted" "mj_qerr" "ml" "sj_shape" "sj_trust" "inv" "inv_same" "inv3" "e2e", or
                       \* "all": every product family and the end-to-end behaviours in one run (quick tier)
           Width       \* "quick" | "thorough": room versions per family, allow-list alphabet of mj_restricted
 
@@ -97,16 +97,21 @@ InitSJTrust ==
         /\ phase = "sjreq"
 
 \* ---- invite --------
-InitInv ==
+\*  ss: the inviter's server - "J" a remote server, "R" the invited user's own server (the event must still carry
+\*  a valid signature of that server: the local name proves nothing about a request that came over federation)
+InitInvFrom(fam, ss) ==
     \E v \in Vers("inv"), rv \in {"known", "unknown"}, t \in {"member", "other"}, m \in {"invite", "join", "leave", "missing"},
        sk \in {"invitee", "otherlocal", "sender", "absent"}, rm \in {"main", "other"}, sig \in Sig6,
        kn \in BOOLEAN, uq \in {"ok", "err", "nil"} :
     \E mem \in (IF kn THEN Mem5 ELSE {"none"}) :
     \* quick: the way the stripped state arrives is varied for every event shape, with a sender the server can check
     \E st \in (IF Width = "thorough" \/ (sig = "valid" /\ uq = "ok") THEN {"none", "given"} ELSE {"none"}) :
-        /\ sc = [Fam(Base(v), "inv") EXCEPT !.rv = rv, !.known = kn, !.mem = mem, !.uq = uq, !.stripped = st]
-        /\ net = [k |-> "invreq", room |-> "main", ev |-> Ev(t, m, "J", sk, rm, "none", sig)]
+        /\ sc = [Fam(Base(v), fam) EXCEPT !.rv = rv, !.known = kn, !.mem = mem, !.uq = uq, !.stripped = st]
+        /\ net = [k |-> "invreq", room |-> "main", ev |-> Ev(t, m, ss, sk, rm, "none", sig)]
         /\ phase = "invreq"
+
+InitInv     == InitInvFrom("inv", "J")
+InitInvSame == InitInvFrom("inv_same", "R")
 
 \* ---- invite, v3 endpoint (pseudo-ID rooms): shares the common checks of the invite handler --------
 InitInv3 ==
@@ -128,6 +133,7 @@ GInit ==
           \/ Is("sj_shape") /\ InitSJShape
           \/ Is("sj_trust") /\ InitSJTrust
           \/ Is("inv") /\ InitInv
+          \/ Is("inv_same") /\ InitInvSame
           \/ Is("inv3") /\ InitInv3
 
 GSpec == GInit /\ [][Next]_vars
